@@ -1,5 +1,4 @@
-(* C47 — proofs, part 6: the model satisfies the checker that is applied to the implementation
-   (outside the two refuted input classes). *)
+(* C47 — proofs, part 6: the model satisfies the checker that is applied to the implementation. *)
 From Coq Require Import List NArith ZArith Bool String Lia ZifyBool.
 Import ListNotations.
 From TV Require Import Lib.Obs Lib.C21_Utf8 Lib.C21_Pct C47.Model C47.Run C47.Proofs C47.Proofs2 C47.Proofs3 C47.Proofs4 C47.Proofs5.
@@ -58,20 +57,16 @@ Lemma lower_sv : text_lower k_server = t "server". Proof. reflexivity. Qed.
 
 (* ---------------- the response part ---------------- *)
 Lemma check_resp_model ver r a o :
-  version_ok ver = true ->
-  (text_eqb (r_method r) (t "HEAD") = true -> app_ok true o = true -> app_body o = []) ->
-  check_resp ver r o (handle_request ver r a o) = true.
+  version_ok ver = true -> check_resp ver r o (handle_request ver r a o) = true.
 Proof.
-  intros Hver Hhead. unfold check_resp.
+  intros Hver. unfold check_resp.
   destruct (app_ok (text_eqb (r_method r) (t "HEAD")) o) eqn:Hok; [|reflexivity]. cbn [negb].
-  assert (Hh : text_eqb (r_method r) (t "HEAD") = true -> app_body o = []).
-  { intros E. apply Hhead; [exact E|]. rewrite E in Hok. exact Hok. }
-  destruct (handle_request_writes ver r a o Hver Hok Hh) as [s [wh Hw]]. rewrite Hw.
+  destruct (handle_request_writes ver r a o Hver Hok) as [s [wh Hw]]. rewrite Hw.
   pose proof Hok as Hok'. unfold app_ok in Hok'.
   destruct (a_start o) as [[status hs]|] eqn:Hst; [|discriminate].
   apply andb_true_iff in Hok' as [Hok' _]. apply andb_true_iff in Hok' as [Hok' _].
   apply andb_true_iff in Hok' as [Hsok Hhs].
-  destruct (handle_request_status_line ver r a o s wh (app_body o) status hs Hst Hsok Hw) as [Es [_ [Hv _]]].
+  destruct (handle_request_status_line ver r a o s wh (sent_body r o) status hs Hst Hsok Hw) as [Es [_ [Hv _]]].
   set (code := status_code status) in *.
   assert (Hwd : forall n, hname_eq n (t "connection") = false ->
      values_of n wh = values_of n hs
@@ -82,7 +77,7 @@ Proof.
   { intros n Hn. rewrite (Hv n Hn). apply values_of_with_defaults. }
   repeat (apply andb_true_iff; split).
   - rewrite Es. apply text_eqb_refl.
-  - destruct (text_eqb (r_method r) (t "HEAD")) eqn:EH; [rewrite (Hh eq_refl)|]; apply text_eqb_refl.
+  - unfold sent_body. destruct (text_eqb (r_method r) (t "HEAD")); apply text_eqb_refl.
   - apply forallb_forall. intros [n v] Hin. cbn [fst].
     rewrite forallb_forall in Hhs. specialize (Hhs (n, v) Hin). cbn [fst snd] in Hhs.
     apply andb_true_iff in Hhs as [_ Hc]. apply negb_true_iff in Hc. unfold is_conn in Hc.
@@ -128,15 +123,11 @@ Proof.
 Qed.
 
 (* ---------------- the whole checker ---------------- *)
-Theorem check_case_model c :
-  version_ok (ver_of c) = true ->
-  (forall a, accept (req_of c) = Some a -> Forall (fun ch => ch < 128) (q_path a)) ->
-  (text_eqb (r_method (req_of c)) (t "HEAD") = true -> app_ok true (app_of c) = true -> app_body (app_of c) = []) ->
-  check_case c (run_case c) = true.
+Theorem check_case_model c : version_ok (ver_of c) = true -> check_case c (run_case c) = true.
 Proof.
-  intros Hver Hpath Hhead. unfold check_case, run_case. rewrite dec_outcome_enc.
+  intros Hver. unfold check_case, run_case. rewrite dec_outcome_enc.
   unfold check_outcome, serve. destruct (accept (req_of c)) as [a|] eqn:Ha; [|reflexivity].
   destruct (environ_total _ a Ha) as [e He]. rewrite He.
-  rewrite (check_env_model _ a e Ha He (Hpath a eq_refl)).
-  rewrite (check_resp_model (ver_of c) (req_of c) a (app_of c) Hver Hhead). reflexivity.
+  rewrite (check_env_model _ a e Ha He).
+  rewrite (check_resp_model (ver_of c) (req_of c) a (app_of c) Hver). reflexivity.
 Qed.
